@@ -34,6 +34,7 @@ PROP = {
         {"name": "path", "quick": 1200000, "thorough": 12000000, "maxlen": 96},
         {"name": "text_long", "quick": 600000, "thorough": 6000000, "maxlen": 256},
     ],
+    "uchar": ["split", "trim", "argvc", "cmdargs", "shell", "memmem", "replace"],
     "fuzz": [
         {"name": "cmdargs", "secs": 40, "maxlen": 128},
         {"name": "shell", "secs": 40, "maxlen": 128},
